@@ -178,6 +178,9 @@ def cases(tier, seed):
     # get one - leaving the context must terminate however the workers race for the tokens (repeated: the race is timing dependent)
     for rep in range(8 if quick else 40):
         yield {"kind": "lifecycle", "pool": "functor", "workers": 12, "quota": None, "rep": rep, "calls": [{"ordered": True, "n": 3, "cs": 1}]}
+    # leaving the context while workers are still in begin(), with fewer work-queue slots than workers
+    for wq, delays in ((1, [0.8, 0.8, 0.8]), (1, [0.0, 1.0]), (2, [1.0, 1.0, 1.0, 0.0])):
+        yield {"kind": "exit-during-begin", "wq": wq, "begin_delays": delays}
     # begin raises ------------------------------------------------------------------------------------------------
     for w in ((2, 3) if quick else (2, 3, 4)):
         for j in range(w):
@@ -390,9 +393,29 @@ def _body_until_ready(case, logdir):
             "observed": {"waited_s": round(t1 - t0, 3)}}
 
 
+def _body_exit_during_begin(case, logdir):
+    """the context is left while the workers are still busy in a slow begin() and the bounded work queue has fewer slots than there are
+    workers: every worker must still get its stop token, run end() exactly once, and none may be left running"""
+    P, W, Fac = _worker_classes(logdir)
+    pool = P.FunctorPool([W(begin_delay=d) for d in case["begin_delays"]], work_queue_maxsize=case["wq"])
+    with pool:
+        pass
+    logs = _read_logs(logdir)
+    if len(logs) != len(case["begin_delays"]):
+        return _fail("lifecycle/exit-during-begin/workers-without-log", len(case["begin_delays"]), sorted(logs))
+    for key, ev in logs.items():
+        bad = _shape_problem(key, ev)
+        if bad:
+            return _fail("lifecycle/exit-during-begin/" + bad[0], {"worker": key, "log": bad[1]}, bad[2])
+    alive = _alive_pids(logs) + [p.pid for p in pool.procs if p.is_alive()]
+    if alive:
+        return _fail("lifecycle/exit-during-begin/worker-left-running", [], alive)
+    return {"ok": True, "trivial": False, "scenario": "lifecycle/exit-during-begin", "expected": None, "observed": {"workers": len(logs)}}
+
+
 def run_case(case):
     kind = case.get("kind")
-    bodies = {"lifecycle": _body_lifecycle, "begin-raises": _body_begin_raises,
+    bodies = {"exit-during-begin": _body_exit_during_begin, "lifecycle": _body_lifecycle, "begin-raises": _body_begin_raises,
               "functor-raises": _body_functor_raises, "until-all-ready": _body_until_ready}
     if kind not in bodies:
         raise ValueError("unknown kind %r" % (kind,))
